@@ -21,7 +21,11 @@ EVIDENCE = os.path.join(ROOT, 'evidence')
 
 
 class Undecided(Exception):
-    pass
+    """No verdict (tool limit).  reach=True: the verifier could not be applied to the current code at all
+    (lost anchor / unsupported construct), so a native differential search may still find a real failing input."""
+    def __init__(self, msg, reach=False):
+        Exception.__init__(self, msg)
+        self.reach = reach
 
 
 def known_findings():
@@ -44,7 +48,7 @@ def run_verus_unit(unit, tier):
     try:
         text, report = verus.generate(unit['tmpl'])
     except extract.ExtractionError as e:
-        raise Undecided('extraction of %s failed (lost anchor / changed shape): %s' % (unit['tmpl'], e))
+        raise Undecided('extraction of %s failed (lost anchor / changed shape): %s' % (unit['tmpl'], e), reach=True)
     except FileNotFoundError as e:
         raise Undecided('extraction: %s' % e)
     gen_path = os.path.join(GEN_DIR, unit['tmpl'].replace('.tmpl', ''))
@@ -54,7 +58,7 @@ def run_verus_unit(unit, tier):
         raise Undecided('verus %s on %s' % (r['status'], unit['tmpl']))
     if r['status'] == 'rejected':
         raise Undecided('verus rejected the generated file %s before verification (unsupported construct / type error): %s'
-                        % (gen_path, '; '.join('%s @gen:%s' % (d['msg'], d['line']) for d in r['diagnostics'][:4])))
+                        % (gen_path, '; '.join('%s @gen:%s' % (d['msg'], d['line']) for d in r['diagnostics'][:4])), reach=True)
     crate = os.path.basename(gen_path)[:-3]
     funcs = r['functions']
     want = unit['obligations']
@@ -73,6 +77,7 @@ def run_verus_unit(unit, tier):
             if still:
                 r['diagnostics'] = r2['diagnostics']
                 r['stderr'] = r2['stderr']
+    lost = {f['fn'].split('::')[-1]: f['lost_anchors'] for f in report['functions'] if f.get('lost_anchors')}
     obls = []
     for o in want:
         k = _fn_key(funcs, crate, o)
@@ -87,8 +92,12 @@ def run_verus_unit(unit, tier):
                     diags.append('%s @gen:%s' % (d['msg'], d['line']))
                 elif loc is None and d['line'] and _line_in_fn(text, d['line'], o):
                     diags.append('%s @gen:%s' % (d['msg'], d['line']))
-        obls.append({'name': 'verus:%s:%s' % (crate, o), 'engine': 'verus/z3', 'ok': f['success'], 'time_ms': f['time_ms'],
-                     'detail': diags, 'bounded': False})
+        rec = {'name': 'verus:%s:%s' % (crate, o), 'engine': 'verus/z3', 'ok': f['success'], 'time_ms': f['time_ms'],
+               'detail': diags, 'bounded': False}
+        if not f['success'] and o.split('::')[-1] in lost:
+            rec['lost_anchors'] = lost[o.split('::')[-1]]
+            rec['detail'] = diags + ['proof hints lost: ' + '; '.join(lost[o.split('::')[-1]])]
+        obls.append(rec)
     # canary: must fail
     ck = _fn_key(funcs, crate, 'canary_must_fail')
     canary = None
@@ -218,9 +227,25 @@ def run_property(pid, tier, seed, args):
     for unit in P.get('verus', []):
         if tier != 'thorough' and unit.get('tier', 'quick') != 'quick':
             continue
-        o, m = run_verus_unit(unit, tier)
+        try:
+            o, m = run_verus_unit(unit, tier)
+        except Undecided as e:
+            if not e.reach:
+                raise
+            # The deductive verifier cannot reach the changed code. Only a concrete failing input found by running
+            # the real code against the executable spec may still raise an alarm; otherwise the answer is UNDECIDED.
+            import witness
+            w = witness.search(pid)
+            if w is None:
+                raise
+            o = [{'name': 'verus:%s:<unreachable: %s>' % (unit['tmpl'].replace('.rs.tmpl', ''), str(e)[:120]), 'engine': 'native/differential',
+                  'ok': False, 'time_ms': 0, 'bounded': False, 'witness': w,
+                  'detail': ['verifier could not be applied (%s); native differential search found a failing input: %s expected %s got %s'
+                             % (str(e)[:200], w['input'], w['expected'], w['actual'])]}]
+            m = None
         obls += o
-        vmetas.append(m)
+        if m is not None:
+            vmetas.append(m)
     extra_obls, extra_meta = [], []
     for tool in P.get('tools', []):
         if tier != 'thorough' and tool.get('tier', 'quick') != 'quick':
@@ -239,6 +264,13 @@ def run_property(pid, tier, seed, args):
     kf = [k for k in known_findings() if k['property'] == pid]
     violations = []
     for o in failed:
+        if o.get('lost_anchors') and not o.get('witness'):
+            import witness
+            w = witness.search(pid, o['name'])
+            if w is None:
+                raise Undecided('obligation %s no longer verifies, but its proof hints lost their anchors (%s) and no failing input was found: refactoring or violation undecided'
+                                % (o['name'], '; '.join(o['lost_anchors'])))
+            o['witness'] = w
         hit = [k for k in kf if k['obligation'] == o['name']]
         if hit:
             print('KNOWN-FINDING: property=%s %s' % (pid, hit[0]['what']))
